@@ -131,7 +131,6 @@ theorem parseNodeTest_good (cfg : PCfg) (inp : Ast) (axis : String) (mt : NType)
     · refine Good.bind (next_lt st hne) ?_
       intro st1 h1
       have hle : M st1 ≤ M st := Nat.le_of_lt h1
-      extract_lets name
       split
       · split
         · split
